@@ -412,7 +412,9 @@ def text_jobs(tier, seed, first_id, binp=None):
     dist["size-scaled limit family"] = len(lim)
     dist["jump-distance family (calibrated to 2^8 / 2^16 bytes)"] = len(cal)
     dist["bytes_per_filler_statement"] = {k: round(v, 2) for k, v in bps.items()}
-    for origin, src in fam + lim + cal:
+    crl = G.crlf_family(tier, rng, srcs)
+    dist["CRLF / mixed line-ending family (multi-line tokens before failing statements, pool, corpus)"] = len(crl)
+    for origin, src in fam + lim + cal + crl:
         jid += 1
         jobs.append({"mode": "text", "id": jid, "src": src, "run": True, "origin": origin,
                      "cost": 2 + len(src) // 400})
